@@ -709,6 +709,31 @@ func (s *DB) getHistoricRootsAndNodes(
 			}
 		}
 	}
+	// Nodes are content-addressed, so a node that a superseded version dropped
+	// can be in use again by a version that is kept (for example once a row
+	// has been inserted and later vacuumed away, the tree is back to its
+	// earlier content). Never hand those out for deletion.
+	if len(candidateBlocks) > 0 {
+		for name, root := range rootCacheByName {
+			if _, superseded := candidateRoots[name]; superseded {
+				continue
+			}
+			kept, err := crdt.Load(ctx, s.crdt.Config, &name, *root)
+			if err != nil {
+				return nil, nil, fmt.Errorf("load kept version %s: %w", name, err)
+			}
+			err = kept.Mast.DiffLinks(ctx, nil,
+				func(removed bool, link interface{}) (bool, error) {
+					if ls, ok := link.(string); ok && !removed {
+						delete(candidateBlocks, ls)
+					}
+					return true, nil
+				})
+			if err != nil {
+				return nil, nil, fmt.Errorf("links of kept version %s: %w", name, err)
+			}
+		}
+	}
 	nodes = make([]string, 0, len(candidateBlocks))
 	for k := range candidateBlocks {
 		nodes = append(nodes, k)
